@@ -77,6 +77,9 @@ mod oid;
 mod ring_like;
 mod sign_algo;
 pub mod string;
+#[cfg(rcgen_verif)]
+#[allow(missing_docs)]
+pub mod verif_hooks;
 
 /// Type-alias for the old name of [`Error`].
 #[deprecated(
@@ -300,7 +303,10 @@ See also the RFC 5280 sections on the [issuer](https://tools.ietf.org/html/rfc52
 and [subject](https://tools.ietf.org/html/rfc5280#section-4.1.2.6) fields.
 */
 pub struct DistinguishedName {
+	#[cfg(not(rcgen_verif))]
 	entries: HashMap<DnType, DnValue>,
+	#[cfg(rcgen_verif)]
+	entries: HashMap<DnType, DnValue, verif_hooks::SimHashState>,
 	order: Vec<DnType>,
 }
 
